@@ -103,6 +103,15 @@ class Helper:
             raise EncodingError("native helper does not build against the snapshot: " + out[-1500:])
         self.bin = os.path.join(self.run.scratch, "helper-target", "debug", "verif-helper")
 
+    def render_specs(self, specs):
+        """Display renderings of expressions given as JSON tree specs (real printer on constructed expressions)."""
+        out = []
+        for l in self.call("render-spec", specs):
+            if not l.startswith("OK "):
+                raise EncodingError(f"printer failed on a probe expression: {l[:200]}")
+            out.append(json.loads(l[3:]))
+        return out
+
     def call(self, mode, texts, extra=()):
         self.build()
         inp = "\n".join(json.dumps(t) for t in texts) + "\n"
